@@ -275,6 +275,9 @@ def plan(pid: str, tier: str, seed: int) -> dict:
                # the intended design (retry row carries the attempt count) satisfies the bound
                + [(n, {"AnyOrder": "FALSE", "FixRetry": "TRUE"}, {"intended": True}) for n in ("tr9", "tr12", "trnc12")],
             ref_as_trace=True,
+            # a second worker writes the stage row while the failing task body runs: spec/Progress.tla, every
+            # interleaving replayed on real handler threads
+            component=lambda rep: progress_component(rep, tier, seed),
         )
     if pid == "C15":
         progs = loop_family()
@@ -370,6 +373,12 @@ def adapt_component(rep: Reporter, res: dict) -> dict:
         rep.violation(v["what"], ctx, v.get("replay") or {})
     return {"states": res.get("states", 0), "transitions": res.get("transitions", 0),
             "replayed": res.get("cases_replayed", 0), "configs": res.get("details"), "samples": res.get("samples", [])[:3]}
+
+
+def progress_component(rep: Reporter, tier: str, seed: int) -> dict:
+    from . import check_progress
+
+    return check_progress.component(rep, tier, seed)
 
 
 def dedup_component(rep: Reporter, tier: str, seed: int) -> dict:
